@@ -144,6 +144,24 @@ func serveMain(args []string) {
 			}
 			start(e, p, path)
 			fmt.Fprintf(out, "STARTED %d\n", p)
+		case "STARTCFG": // STARTCFG <eng> <port>: an emulator with non-default configuration (CLIENT SETINFO disabled, a dispatch hook on ECHO)
+			e, _ := strconv.Atoi(f[1])
+			p, _ := strconv.Atoi(f[2])
+			eng, err := redisemu.NewEmulator(l, p, "127.0.0.1", "", nil)
+			if err != nil {
+				fmt.Fprintf(out, "ERR %v\n", err)
+				break
+			}
+			eng.DisableClientSetInfo()
+			eng.SetHook(func(cmd string, args map[string]any) (bool, any, error) {
+				if strings.EqualFold(cmd, "echo") {
+					return true, "hooked", nil
+				}
+				return false, nil, nil
+			})
+			eng.Start()
+			engs[e] = eng
+			fmt.Fprintf(out, "STARTED %d\n", p)
 		case "CRASHCOPY": // CRASHCOPY <dir>|off
 			if f[1] == "off" {
 				crashDir = ""
